@@ -16,6 +16,7 @@ func init() {
 		ID:       "C01",
 		Category: "model_checking",
 		Rule: "for every writer setting: (a) every string over {a,b} up to length 10 and {a,b,c} up to 6, and every content kind at every size of a dense ladder 0..300 plus windows around each internal threshold, as one Write + Close; " +
+			"(a') for the accelerated settings every ramp(k), k=1..300 (k consecutive byte values: every non-zero run length of the header's run-length coder), gap(k), k=1..255 (every zero run length) and Fibonacci-distributed alphabets of 2..40 symbols (Huffman depth beyond 15: length limiting); " +
 			"(b) every sequence over {Write(piece), Flush}^<=d followed by Close with pieces chosen to hit the buffer-fill, slide, block-cap and wrap situations; " +
 			"non-trivial = the execution produced at least one compressed block from more than 8 bytes of data or contains a Flush",
 		Assumptions: []string{"compress/flate is a correct inflater", "the reference inflater is correct (self-checked against compress/flate on every valid stream)"},
@@ -87,7 +88,7 @@ func c01Harness(cfg *Cfg) func(x *mc.Exec) {
 	} else {
 		tiny = append(pieces.Tiny(2, 10), pieces.Tiny(3, 6)...)
 	}
-	contentKinds := []string{"zero", "rand", "r3", "text", "per7", "fib"}
+	contentKinds := []string{"zero", "rand", "r3", "text", "per7", "fib", "runs258"}
 	depth := 2
 	if cfg.Thorough {
 		depth = 3
@@ -107,7 +108,7 @@ func c01Harness(cfg *Cfg) func(x *mc.Exec) {
 	return func(x *mc.Exec) {
 		ki := x.Choose(len(kinds), "cfg")
 		k := kinds[ki]
-		mode := x.Choose(3, "mode")
+		mode := x.Choose(4, "mode")
 		sink := &env.Sink{}
 		r, err := newRun(k, sink)
 		if err != nil {
@@ -146,6 +147,32 @@ func c01Harness(cfg *Cfg) func(x *mc.Exec) {
 			if lad[si] > 8 {
 				x.NonTrivial()
 			}
+		case 3: // header and code-construction shapes: every run length of the header's run-length coder, every Huffman depth
+			if !k.Accelerated() {
+				return
+			}
+			fam := x.Choose(3, "shape")
+			var d []byte
+			var nm string
+			switch fam {
+			case 0:
+				kk := 1 + x.Choose(300, "ramp")
+				d = pieces.Ramp(3000, kk)
+				nm = fmt.Sprintf("ramp(%d)", kk)
+			case 1:
+				kk := 1 + x.Choose(255, "gap")
+				d = pieces.Gap(3000, kk, cfg.Seed)
+				nm = fmt.Sprintf("gap(%d)", kk)
+			case 2:
+				kk := 2 + x.Choose(39, "fib")
+				n := []int{3000, 70000}[x.Choose(2, "size")]
+				d = pieces.Fib(n, kk, cfg.Seed)
+				nm = fmt.Sprintf("fib(%d,%d)", kk, n)
+			}
+			if _, _, ok := r.do(x, "C01", opWrite, d, "W("+nm+")"); !ok {
+				return
+			}
+			x.NonTrivial()
 		case 2: // operation sequences
 			ps, ok := reduced[k.Fill()]
 			if !ok {
